@@ -281,8 +281,10 @@ def _factor_long_intermediate(expr: e.Expr, itmd: list[EriOrbenergy],
                 if len(tensor_obj) > 2:
                     raise ValueError("Expected the term to be at most of "
                                      f"length 2. Got: {tensor_obj}.")
+                is_alias = False
                 for obj in tensor_obj.objects:
                     if isinstance(obj.base, SymbolicTensor):
+                        is_alias = obj.idx != itmd_indices
                         itmd_indices = obj.idx
                     elif obj.sympy.is_number:
                         variant_data['factor'] *= obj.sympy
@@ -290,6 +292,16 @@ def _factor_long_intermediate(expr: e.Expr, itmd: list[EriOrbenergy],
                         raise TypeError("Only expected tensor and prefactor."
                                         f"Found {obj} in {tensor_obj}")
 
+                # The symmetry of the itmd tensor was used to reorder the
+                # indices (they contain target indices of the term that
+                # could not be minimized). Then itmd_i is the position
+                # of the matched itmd term for the original order of the
+                # indices and not for the canonical itmd_indices the variant
+                # is stored with: P_pq A_i(..p..q..) = +- A_j(..p..q..).
+                # The correct match (j, itmd_indices) is found on its own,
+                # when the term is compared to the itmd term j.
+                if is_alias:
+                    continue
                 # check if we already found another variant that gives the
                 # same itmd_indices and remainder (an identical result that
                 # only differs in contracted itmd_indices)
